@@ -252,3 +252,14 @@ PROPS["C13"] = {
     "outside_claim": ["true multi-goroutine interleavings inside one component and data races", "shouldBid's auditor-signature path (no signature requirements in the harness order)", "the bidengine service's order bookkeeping"],
     "assumptions": ["an asynchronous step's effects happen atomically at its completion point"],
 }
+
+PROPS["C14"] = {
+    "jobs": [{"pkg": "provider/cluster", "files": ["harness/C14/manager.go"], "shims": ["shim.go.tmpl", "shim_loop.go.tmpl"],
+              "quick": ["Harness_C14_5"], "thorough": ["Harness_C14_6", "Harness_C14_8"],
+              "opts": {"timeout": 20000, "witness": 6}, "reach": {"Harness_C14_5": ["returned", "idle"]}}],
+    "bounds": {"quick": "(*deploymentManager).run with startDeploy/startTeardown/do/doDeploy/doTeardown: <=6 selects before shutdown is forced, then the post-loop drain; hostname reservation ok/failed, <=2 manifest updates, one lease-closed (teardown) request, deploy and teardown completing ok or failing at any scheduler-chosen point, provider shutdown at any point",
+               "thorough": "8 and 10 selects"},
+    "stubs": LOOP_STUBS + ["newDeploymentMonitor/newDeploymentWithdrawal -> already-finished stubs in the engine (natively the real ones run against the stub client)", "retry.Do -> up to 3 immediate attempts"],
+    "outside_claim": ["the cluster service's own loop (reservation release on manager completion) and the hostname service internals", "true multi-goroutine interleavings and data races", "runs pre-empted by provider shutdown keep the safety obligations but not 'teardown is invoked' (shutdown deliberately leaves workloads running)"],
+    "assumptions": ["a cluster operation starts when its goroutine is spawned and its effects happen atomically at its completion point"],
+}
